@@ -110,7 +110,7 @@ PROPS["C08"] = {
 
 PROPS["C20"] = {
     "props_files": ["Props/C20.v"],
-    "go_tests": ["TestVerifWait", "TestVerifWaitConcurrent"],
+    "go_tests": ["TestVerifWait", "TestVerifWaitConcurrent", "TestVerifWaitFullQueue"],
     "level": "proof",
     "rule": "deterministic: real Wait() calls blocked in goroutines, Set/Delete traffic, and the real drainWrite() applied to harness-chosen "
             "batch boundaries (1..4 items or everything) so that markers fall at every position relative to a batch; concurrent: 2..8 goroutines "
@@ -118,7 +118,7 @@ PROPS["C20"] = {
     "trusted_base": STORE_TB + ["Go channels are FIFO; close(chan) wakes every receiver"],
     "assumptions": ["the maintenance goroutine keeps being scheduled while the cache is open"],
     "project_codes": {"wait": ["12", "13", "1", "2", "6", "7"]},
-    "impl_only_traces": ["waitconc"],
+    "impl_only_traces": ["waitconc", "waitfull"],
     "monitor_tags": ["C20"],
     "explanation": "barrier and release theorems over the store model's queue; released waiters per batch compared with the real Wait",
 }
@@ -292,6 +292,8 @@ def c19_extra(pid, tier, seed, outdir):
 
 PROPS["C19"]["extra"] = c19_extra
 
+PROPS["C02"]["go_tests"] = ["TestVerifStore", "TestVerifWaitFullQueue"]
+PROPS["C02"]["impl_only_traces"] = ["waitfull"]
 for _p in ("C11", "C12", "C04"):
     PROPS[_p]["timeout"] = {"quick": 900, "thorough": 3000}
 PROPS["C01"]["go_tests"] = ["TestVerifStore", "TestVerifPoolAlias", "TestVerifRangeConcurrent", "TestVerifRBMutex"]
